@@ -264,6 +264,9 @@ def worker(case):
         before = snapshot(w, hidden=False)
         orig_ids = set(id(o) for o in w.pool)
         nclones = 0
+        # views of the reference sets and of the instances' pins taken before any clone is made
+        ref_views = [(w[i], w[i].references) for i in range(len(w)) if w.kind[i] == "D"]
+        pin_views = [(w[i], w[i].pins) for i in range(len(w)) if w.kind[i] == "X"]
         for i in range(len(w)):
             o, k = w[i], w.kind[i]
             tag = "%s:%s" % (k, case[2])
@@ -306,6 +309,14 @@ def worker(case):
                         continue  # cloned instances registered with a definition outside the clone: documented
                 probs.append(("source-changed-by-clone:%s" % tag, "%s -> %s" % (x, y)))
                 break
+            for d_, view in ref_views:
+                if sorted(map(id, view)) != sorted(map(id, d_.references)):
+                    probs.append(("held-reference-view-out-of-step:%s" % tag, "a view of %s.references taken before the clone lists %d, the cell %d" % (d_.name, len(view), len(d_.references))))
+                    break
+            for x_, view in pin_views:
+                if [id(p) for p in view] != [id(p) for p in x_.pins]:
+                    probs.append(("held-pins-view-out-of-step:%s" % tag, "instance %s" % x_.name))
+                    break
             # undo the documented side effect so that the next root starts from the same source
             for a, b in m.values():
                 if kind_of(b) == "X" and b._reference is not None and id(b._reference) in w.index and id(b) not in orig_ids:
